@@ -50,6 +50,7 @@ def _pool(seed, n):
     corp = T.corpus_texts()
     from . import streams as S
     cov = [e["t"] for e in S.cov_entries()] or corp
+    covset = set(cov)
     while len(texts) < n:
         texts.append(r.choice([G.expression(r)[1], r.choice(corp), T.soup(r), r.choice(cov)]))
     tss = ["2021-03-10T12:43:30", "2020-02-29T23:59:59.999999", "2019-12-31T08:00:00", "2024-02-28T23:10:00"]
@@ -57,6 +58,8 @@ def _pool(seed, n):
     for i, t in enumerate(texts):
         o = {"latent_time": i % 3 != 1, "max_stack_depth": [10, 10, 0, 1][i % 4], "relative_match_len": [1.0, 1.0, 0.5][i % 3],
              "scorer": "constant" if i % 5 == 4 else "shipped"}
+        if t in covset and o["max_stack_depth"] == 0:
+            o["max_stack_depth"] = 10      # (texts of the coverage corpus are long soups: the exhaustive search on them takes minutes)
         entries.append({"t": t, "ts": tss[i % len(tss)], "o": o})
     # the same reference-time dependent text under reference times that share the year and month (and the day): state keyed
     # on a coarse summary of the reference time shows up here
